@@ -14,6 +14,7 @@ INVARIANT E_ReportsTrackedBest
 INVARIANT E_BudgetRespected
 INVARIANT E_ExitCodes
 INVARIANT OutputRouting
+INVARIANT NoDescriptorLeft
 INVARIANT E_BudgetStopsOnlyWhenUsedUp
 INVARIANT InvEmit
 PROPERTY Terminates
